@@ -31,14 +31,20 @@ MANIFEST = {
 }
 
 PLAN = {
-    # tier: (mc configs [(cfg, timeout, share of the cores)], tlc scenarios, generated scenarios, done-race trees, stall deadline s)
+    # tier: (mc configs [(cfg, timeout, share of the cores)], tlc scenarios, generated scenarios, done-race trees, stall deadline s);
+    # the number of second-life-linger trees is LINGER[tier]
     "quick": ([("MC_Supervisor_live_quick.cfg", 600, 0.4), ("MC_Supervisor_safety_quick.cfg", 600, 0.6)], 12, 28, 40, 12),
     "thorough": ([("MC_Supervisor_live_thorough.cfg", 2400, 0.15), ("MC_Supervisor_safety4_thorough.cfg", 2400, 0.2),
                   ("MC_Supervisor_safety5_thorough.cfg", 3600, 0.65)], 150, 450, 80, 15),
 }
 
+LINGER = {"quick": 8, "thorough": 24}
+
 ASSUME = [
-    "a service that signals Done returns without further waiting, as the package documentation requires (the scripted services do)",
+    "a service that signals Done returns nil by itself after a finite, scripted number of work units (0 .. 3 s of lingering) without waiting "
+    "for its context; it need NOT return immediately: AtMostOneInstance and the restart rules are checked unconditionally, in the model "
+    "(any number of steps between Done and the return) and on the real supervisor (scripted lingering, also in a later life of a node "
+    "that was restarted in place, with the parent failing inside the linger)",
     "services honour their context: after noticing a cancelled context they return within a scripted, finite number of work units",
     "the recorded order of service-side steps is the order of their critical sections under the supervisor's lock: API calls are made "
     "while holding the harness mutex; supervisor-internal steps are not logged and are inferred by TLC",
@@ -236,7 +242,7 @@ def run(prop, tier, replay=None):
         for need in ("Enter", "Restart", "Healthy", "Done", "SawCancel", "Exit:err", "Exit:nil", "Exit:panic", "Exit:ctxErr", "Kill"):
             if model_events[need] == 0:
                 raise vlib.Broken("vacuous model simulation: no %s in %d TLC behaviours" % (need, len(tlc_scs)))
-        scs = fs.fixed_scenarios() + fs.orphan_scenarios() + tlc_scs + fs.gen_scenarios(seed, ngen)
+        scs = fs.fixed_scenarios() + fs.orphan_scenarios() + fs.linger_scenarios(seed, LINGER[tier]) + tlc_scs + fs.gen_scenarios(seed, ngen)
         batches = [("main", [s for s in scs if not fs.risky(s)]), ("risky", [s for s in scs if fs.risky(s)]),
                    ("race", fs.done_race_scenarios(nrace))]
     nid = 0
